@@ -15,8 +15,8 @@ UNIVERSE = ["Qa7x", "Qb7x", "Qc7x", "Qd7x"]
 A, B, C = "Qa7x", "Qb7x", "Qc7x"
 
 
-def st(w, r, s, sh=1):
-    return {"a": "SetText", "w": w, "sh": sh, "r": r, "s": s}
+def st(w, r, s, sh=1, rich=False):
+    return {"a": "SetText", "w": w, "sh": sh, "r": r, "s": s, "rich": rich}
 
 
 # how each scenario of MC_ConcSave.tla is built through the public API, and who saves what
@@ -24,7 +24,10 @@ SCENARIOS = {
     "equal":    [([{"a": "Init"}, st(1, 1, A), st(1, 2, B)], [1, 1]),                        # same object twice
                  ([{"a": "Init"}, st(1, 1, A), st(1, 2, B), {"a": "Clone", "w": 1}], [1, 2])],  # a clone
     "disjoint": [([{"a": "Init"}, st(1, 1, A), st(1, 2, A), {"a": "Clone", "w": 1}, st(2, 1, B), st(2, 2, C)], [1, 2])],
-    "overlap":  [([{"a": "Init"}, st(1, 1, A), st(1, 2, B), {"a": "Clone", "w": 1}, st(2, 1, B), st(2, 2, C)], [1, 2])],
+    "overlap":  [([{"a": "Init"}, st(1, 1, A), st(1, 2, B), {"a": "Clone", "w": 1}, st(2, 1, B), st(2, 2, C)], [1, 2]),
+                 # the same with rich texts (two runs each)
+                 ([{"a": "Init"}, st(1, 1, A, rich=True), st(1, 2, B, rich=True), {"a": "Clone", "w": 1},
+                   st(2, 1, B, rich=True), st(2, 2, C, rich=True)], [1, 2])],
     "empty":    [([{"a": "Init"}, {"a": "Clone", "w": 1}, st(2, 1, A)], [1, 2])],
     "three":    [([{"a": "Init"}, st(1, 1, A), {"a": "Clone", "w": 1}, st(2, 1, B), {"a": "Clone", "w": 1},
                    {"a": "Delete", "w": 3, "sh": 1, "r": 1}], [1, 2, 3])],
@@ -74,6 +77,15 @@ def gen_cases(chk):
         for setup, savers in variants:
             for s in sch:
                 cases.append({"scenario": sc, "steps": setup + [{"a": "ConcSave", "savers": savers, "schedule": s}]})
+        # the path-based entry point (xlsx::write: temporary sibling file + rename), savers writing to
+        # sibling files of one directory: same stem / different extension, and different stems
+        if sc in ("disjoint", "empty", "lazy"):
+            setup, savers = variants[0]
+            sub = sch if len(sch) <= 250 else chk.rng.sample(sch, 250 if quick else 1500)
+            for k, s in enumerate(sub):
+                names = ["book.xlsx", "book.xlsm"] if k % 2 == 0 else ["left.xlsx", "right.xlsx"]
+                cases.append({"scenario": sc, "steps": setup + [{"a": "ConcSave", "savers": savers, "schedule": s,
+                                                                 "paths": names[:len(savers)]}]})
     chk.extra["schedules_per_scenario"] = counts
     for i, c in enumerate(cases):
         c["case"] = i
@@ -155,7 +167,8 @@ def run(chk):
     chk.evaluations = len(cases)
     chk.nontrivial = {(c["scenario"], json.dumps(c["steps"][-1])) for c in cases}
     chk.rule = ("a case is a scenario (string sets equal / disjoint / overlapping / one saver without strings / three "
-                "savers; a lazily reopened workbook with a raw sheet; same object through shared references or clones) plus one complete interleaving of the savers at "
+                "savers; a lazily reopened workbook with a raw sheet; plain and rich texts; same object through shared references or clones; "
+                "write_writer into memory and xlsx::write to sibling paths) plus one complete interleaving of the savers at "
                 "the granularity of the yield points; 2-saver scenarios: all interleavings (quick: at most 1200 sampled "
                 "for the 3432 of 'equal'), 3 savers: TLC-simulated; distinct (scenario, savers, schedule) triples")
     chk.sample({"scenario": cases[0]["scenario"], "script": cases[0]["steps"], "trace": events[0][:4]})
